@@ -382,12 +382,13 @@ func (t *Term) paramIndex() int {
 	return idx
 }
 
-// rootedInParams reports whether every leaf of the term is a param, const, global or func.
+// rootedInParams reports whether every leaf of the term is a param, const, global or func (a load through a
+// parameter-rooted pointer is as memory-less as a field read and is accepted like one).
 func (t *Term) rootedInParams() bool {
 	ok := true
 	t.walk(func(x *Term) bool {
 		switch x.Op {
-		case "phi", "alloc", "unk", "free", "load":
+		case "phi", "alloc", "unk", "free":
 			ok = false
 		}
 		return ok
